@@ -55,6 +55,16 @@ def switch(target_handle: Handle[World], clear_current=False, clear_next=False,
     if from_world is None:
         from_world = desper.default_loop.current_world
 
+    # Handles that have to be cleared are cleared before the target is
+    # loaded, so that the world instance receiving ON_SWITCH_IN_EVENT is
+    # the one the loop is going to run (and the target is loaded once).
+    # A world switching to its own handle with clear_current is asking
+    # for the same thing: a fresh instance of the target.
+    restart = (clear_current and target_handle.cached
+               and target_handle() is from_world)
+    if clear_next or restart:
+        target_handle.clear()
+
     to_world = target_handle()
 
     if from_world is not None:
@@ -68,8 +78,9 @@ def switch(target_handle: Handle[World], clear_current=False, clear_next=False,
     to_world.dispatch_enabled = False
     to_world.dispatch(ON_SWITCH_IN_EVENT_NAME, from_world, to_world)
 
-    raise SwitchWorld(target_handle, clear_current=clear_current,
-                      clear_next=clear_next)
+    raise SwitchWorld(target_handle,
+                      clear_current=clear_current and not restart,
+                      clear_next=False)
 
 
 class Quit(Exception):
